@@ -2,7 +2,7 @@
    canonical bijections (model: Codec/Leaf.v, a transcription of tile.go / extensions.go and of
    tlog.Tile.Path / tlog.ParseTilePath; tie: differential run of the extracted model against
    the Go functions, see checks/c10.py). *)
-From SL Require Import Base.Cryptobyte Gen.Builders Codec.Leaf Codec.LeafProofs Codec.PathProofs Codec.GenProofs.
+From SL Require Import Base.Cryptobyte Base.ReaderGen Gen.Builders Gen.Builders2 Gen.Readers Codec.Leaf Codec.LeafProofs Codec.PathProofs Codec.GenProofs Codec.GenReaderProofs.
 
 (* every entry within the documented limits encodes (no builder error = no panic) and the
    decoder returns exactly that entry and exactly the remaining bytes *)
@@ -76,3 +76,35 @@ Example C10_wf_example :
   wf_leaf (mkLeaf [x30; x82] true (repeat x07 32) [repeat x01 32; repeat x02 32] [x30; x03] 1099511627775 false 1700000000000) = true
   /\ valid_tile (mkTile 8 (-2) 1234067 255) = true.
 Proof. split; vm_compute; reflexivity. Qed.
+
+(* readTileLeaf as TRANSLATED from tile.go on every run (Gen/Readers.v, /verif/translate reader.go: a
+   decision tree over the record of the Go variables the function writes; the fingerprint loop a
+   fuelled fixpoint; the helper readUint40 a parameter, instantiated with the 5-byte big-endian
+   read) returns, on EVERY byte string, exactly what the model's read_tile_leaf_raw returns — the
+   entry and the rest on `return e, s, nil`, a rejection otherwise — so every theorem above about
+   the model's decoder (round trip, canonicity, strictness of the extensions field) is a theorem
+   about the code as it reads now. *)
+Theorem C10_read_tile_leaf_code_is_model : forall tile,
+  rtl_result (gen_rtl (rd_u 5) tile) = read_tile_leaf_raw tile.
+Proof. exact gen_rtl_is_model. Qed.
+Print Assumptions C10_read_tile_leaf_code_is_model.
+
+(* the translated loop never exhausts its fuel, and the whole function was inside the translated subset *)
+Theorem C10_read_tile_leaf_code_total : forall tile,
+  gen_rtl (rd_u 5) tile <> NoFuel /\ gen_rtl_continues = String.EmptyString.
+Proof. intro tile. split; [apply gen_rtl_never_out_of_fuel|exact gen_rtl_whole_function]. Qed.
+Print Assumptions C10_read_tile_leaf_code_total.
+
+(* MarshalExtensions as translated from extensions.go (range guard with SetError, then addUint40) *)
+Theorem C10_marshal_extensions_code_is_model : forall idx,
+  gen_marshal_extensions (b_add (be 5 (Z.to_N idx))) idx = marshal_extensions idx.
+Proof. exact gen_marshal_extensions_is_model. Qed.
+Print Assumptions C10_marshal_extensions_code_is_model.
+
+(* non-vacuity of the code-is-model theorem: on a real precertificate leaf both sides accept *)
+Example C10_read_tile_leaf_code_example :
+  exists e r, rtl_result (gen_rtl (rd_u 5)
+    (be 8 1700000000000 ++ be 2 1 ++ repeat x07 32 ++ be 3 2 ++ [x30; x82] ++ be 2 8 ++ [x00] ++ be 2 5 ++ be 5 77
+     ++ be 3 1 ++ [x31] ++ be 2 32 ++ repeat x01 32 ++ [xff])) = Some (e, r)
+    /\ l_idx e = 77%Z /\ l_pre e = true /\ r = [xff].
+Proof. do 2 eexists. split; [vm_compute; reflexivity|]. repeat split. Qed.
